@@ -77,7 +77,11 @@ func (p *c13prop) Plan(tier string, seed int64) []core.Segment {
 		// nothing for 50-99 calls in a row
 		segs = append(segs, core.Segment{Kind: "stallreset:" + t, N: 200 * m})
 	}
-	reps := int64(1)
+	// (two cases also in the quick tier: whether the race detector gets to
+	// see two unsynchronised accesses depends on the configurations drawn and
+	// on the schedule; measured on a seeded shared scratch slice: 3 of 4 runs
+	// of one case report it)
+	reps := int64(2)
 	if tier == "thorough" {
 		reps = 10
 	}
@@ -137,7 +141,7 @@ func (p *c13prop) Gen(kind string, idx int64, seed int64, tier string) core.Case
 			}
 			cc.Conc = append(cc.Conc, PCase{Cfg: c, Stream: stream, Ops: ops})
 		}
-		cc.Reps = 2
+		cc.Reps = 3
 	default:
 		c := gen.SmallCfg(r, typ, gen.Opts{FewHashBits: r.Intn(2) == 0})
 		// long hash inputs on small alphabets: stale entries verify against
